@@ -167,3 +167,121 @@ def _parents(n):
     while p is not None:
         yield p
         p = getattr(p, "_parent", None)
+
+
+def rule_no_stale_field_alias(ctx, rep, rid: str) -> None:
+    """C17-R8: a method-table factory must not cache `receiver.<field>` in a local shared by its closures when
+    that field is re-bound (assigned a new list) elsewhere: the closures would keep working on the old list."""
+    rep.rule(rid, "method-table factories do not alias a receiver field that other code re-binds (e.g. arr._elements, which splice and the length setter replace) into a local captured by the method closures", floor=1)
+    # fields that are re-bound somewhere: X.<field> = <new value> outside __init__
+    rebound = {}
+    for f in ctx.tree.funcs:
+        if f.name == "__init__":
+            continue
+        for n in f.own_nodes():
+            if isinstance(n, ast.Assign):
+                for t in n.targets:
+                    if isinstance(t, ast.Attribute) and t.attr.startswith("_") and not (isinstance(n.value, ast.Name)):
+                        rebound.setdefault(t.attr, f"{f.qual}:{n.lineno}")
+    n_fac = 0
+    for f in ctx.tree.funcs:
+        if not (f.name.startswith("_make_") and f.name.endswith("_method")):
+            continue
+        n_fac += 1
+        recv = [p for p in f.params() if p not in ("self", "method")]
+        if not recv:
+            continue
+        bad = None
+        for n in f.own_nodes():  # factory level only (closures are separate functions)
+            if isinstance(n, ast.Assign) and isinstance(n.targets[0], ast.Name) and isinstance(n.value, ast.Attribute) and isinstance(n.value.value, ast.Name) and n.value.value.id == recv[0]:
+                attr = n.value.attr
+                local = n.targets[0].id
+                used = any(isinstance(x, ast.Name) and x.id == local for c in f.children.values() for x in c.own_nodes())
+                if attr in rebound and used:
+                    bad = (local, attr, n.lineno)
+        key = f"{f.qual}:field-alias"
+        if bad:
+            rep.bad(rid, key, f"{f.qual} caches {recv[0]}.{bad[1]} in `{bad[0]}` for its method closures, but {bad[1]} is re-bound at {rebound[bad[1]]}: after that the method reads and mutates a detached list (e.g. a.push(a.splice(0,1)[0]) loses the push)", f"{f.module.rel}:{bad[2]}")
+        else:
+            rep.ok(rid, key)
+    if n_fac < 5:
+        raise AnalysisError(f"only {n_fac} method-table factories found")
+
+
+# ---- stale index bound across a re-entrant call -------------------------------------------------
+
+_SHARED_STORAGE = ("_elements", "_data")
+
+
+def _reentrant_sites(ctx, f: Func):
+    """Call nodes in f that can run script code (reach an interpreter loop) or an arbitrary native."""
+    loops = {id(g) for g, _ in ctx.facts.dispatch_loops()}
+    out = []
+    for cs in ctx.cg.sites_of.get(id(f), []):
+        if cs.kind == "dynamic":
+            out.append(cs.call)
+        elif any(id(t) in loops or ctx.cg.reaches(t, loops) for t in cs.targets):
+            out.append(cs.call)
+    return out
+
+
+def rule_index_bound_survives_callback(ctx, rep, rid: str, floor: int = 2) -> None:
+    """for i in range(.., len(arr._elements)) evaluates the bound once.  When the loop body can run script code,
+    the script can shrink the array, and `arr._elements[i]` then raises a host IndexError.  Every such subscript
+    needs a bound check against the CURRENT length inside the iteration (or iteration over the list itself)."""
+    rep.rule(rid, "inside a loop whose body can re-enter script code, every index into an object's shared element storage is checked against the storage's current length in the same iteration (a bound computed before the loop is stale once the callback shrinks the array)", floor=floor)
+    sr = ctx.facts.script_reachable()
+    for f in ctx.tree.funcs:
+        if id(f) not in sr or f.module.name.startswith("regex"):
+            continue
+        re_sites = None
+        # local names that alias shared storage (elements = arr._elements), in f or an enclosing function
+        aliases = set()
+        h = f
+        while h is not None:
+            for n in h.own_nodes():
+                if isinstance(n, ast.Assign) and len(n.targets) == 1 and isinstance(n.targets[0], ast.Name) and isinstance(n.value, ast.Attribute) and n.value.attr in _SHARED_STORAGE:
+                    aliases.add(n.targets[0].id)
+            h = h.parent
+        for loop in f.own_nodes():
+            if not isinstance(loop, (ast.For, ast.While)):
+                continue
+            subs = []
+            for n in walk_no_nested(loop):
+                if isinstance(n, ast.Subscript) and isinstance(n.ctx, ast.Load) and ((isinstance(n.value, ast.Attribute) and n.value.attr in _SHARED_STORAGE) or (isinstance(n.value, ast.Name) and n.value.id in aliases)) and not isinstance(n.slice, (ast.Slice, ast.Constant)):
+                    if any(n is x for b in loop.body for x in ast.walk(b)):
+                        subs.append(n)
+            if not subs:
+                continue
+            if re_sites is None:
+                re_sites = _reentrant_sites(ctx, f)
+            inloop = [c for c in re_sites if any(c is x for b in loop.body for x in ast.walk(b))]
+            if not inloop:
+                continue
+            for sub in subs:
+                store = norm(sub.value)
+                idx = norm(sub.slice)
+                key = f"{f.qual}:{store}[{idx}]:in-loop-with-callback"
+                # accepted idioms
+                fresh = False
+                # (a) enclosing guard mentions len(<store>) in this iteration
+                for t, pol in guards_of(sub, loop):
+                    if f"len({store})" in norm(t):
+                        fresh = True
+                # (b) an earlier statement of the same iteration: `if <idx> >= len(store): break/continue/return`
+                for st in loop.body:
+                    if st.lineno >= sub.lineno:
+                        break
+                    if isinstance(st, ast.If) and f"len({store})" in norm(st.test) and st.body and isinstance(st.body[-1], (ast.Break, ast.Continue, ast.Return, ast.Raise)):
+                        if not any(c.lineno > st.lineno and c.lineno < sub.lineno for c in inloop):
+                            fresh = True
+                # (c) while-loop whose own test reads the current length, subscript before any callback of the iteration
+                if isinstance(loop, ast.While) and f"len({store})" in norm(loop.test) and not any(c.lineno < sub.lineno for c in inloop):
+                    fresh = True
+                # (d) for-range bound is fine only when no callback can run before the subscript in ANY iteration: never (the previous iteration's callback precedes it)
+                if fresh:
+                    rep.ok(rid, key)
+                else:
+                    cb = inloop[0]
+                    rep.bad(rid, key, f"{f.qual}: {store}[{idx}] is indexed inside a loop that also runs script code ({short(cb, 50)}); the loop bound was computed before the loop, so a callback that shrinks the array makes this a host IndexError", f"{f.module.rel}:{sub.lineno}")
+    # floor control: the rule must have looked at the callback-driven array methods
